@@ -12,6 +12,11 @@
 #include <cgreen/internal/cgreen_time.h>
 
 #include "runner.h"
+#include <cgreen/internal/verif_hooks.h>
+
+#ifdef CGREEN_VERIF
+void (*cgreen_verif_observer)(const char *point) = NULL;
+#endif
 
 #ifdef __ANDROID__
 #include "cgreen/internal/android_headers/androidcompat.h"
@@ -383,6 +388,7 @@ void run_the_test_code(TestSuite *suite, CgreenTest *spec, TestReporter *reporte
         die_in(per_test_timeout_value());
     }
 
+    CGREEN_VERIF_POINT("before_setup");
     // for historical reasons the suite can have a setup
     if (has_setup(suite))
     {
@@ -396,7 +402,9 @@ void run_the_test_code(TestSuite *suite, CgreenTest *spec, TestReporter *reporte
         }
     }
 
+    CGREEN_VERIF_POINT("after_setup");
     run(spec);
+    CGREEN_VERIF_POINT("after_body");
     // for historical reasons the suite can have a teardown
     if (has_teardown(suite))
     {
@@ -410,7 +418,9 @@ void run_the_test_code(TestSuite *suite, CgreenTest *spec, TestReporter *reporte
         }
     }
 
+    CGREEN_VERIF_POINT("after_teardown");
     tally_mocks(reporter);
+    CGREEN_VERIF_POINT("after_tally");
 }
 
 void die(const char *message, ...)
